@@ -95,6 +95,18 @@ CHECKS = {
             "signatures: 16 per configuration quick (two configurations), 400 thorough (four).",
             "TLA+ RFC 8032 signing spec evaluated by TLC on recorded signatures; exhaustive option lattice; toy-scale exhaustive TLC",
             "5/C02"),
+    "C09": ("model_checking",
+            "Batch.tla models the BatchVerifier as the code is shaped (three sticky flags, key expansion exactly when precomputeOk(), batch "
+            "fast path, serial fallback) next to the declarative results; TLC explores every history up to 3/4 additions over all 36 abstract "
+            "entry kinds x {plain, expanded, nil key} with Force/Reset/Verify/VerifyBatchOnly anywhere (expansion limit 2) and checks outputs = "
+            "declarative, flags exact, no nil key on the precomputed path. Histories recorded from real BatchVerifier objects (12 entry "
+            "classes x option vectors, sizes 93..96 and 188..191, reuse after Reset, forced non-expansion, caching verifier, nil/seeded "
+            "entropy) are validated step by step against the same machine with the real limit 94; every entry's kind must agree with real "
+            "single verification; cached single verification must equal plain.",
+            "Trusts TLC/SANY; treats the 2^-128 batch soundness error as never; the recorder's entry-class construction is cross-checked "
+            "against real single verification inside the trace spec (single verification itself is decided by C01).",
+            "TLA+ state machine of the batch verifier: exhaustive TLC + trace validation of recorded operation histories",
+            "5/C09"),
 }
 
 NOT_YET = "check not built yet in this round (planned, see DESIGN.md section 11); not claimed until its machinery exists"
